@@ -17,6 +17,7 @@ mod props_hyb2;
 mod props_c03;
 mod props_c04;
 mod props_c07;
+mod props_c09;
 mod props_c10;
 mod props_mem;
 mod seq;
@@ -37,6 +38,7 @@ pub fn all_props() -> Vec<Box<dyn framework::Prop>> {
     v.push(Box::new(props_c07::C07Prop));
     v.push(Box::new(props_c04::C04Prop));
     v.push(Box::new(props_c03::C03Prop));
+    v.push(Box::new(props_c09::C09Prop));
     v
 }
 
